@@ -36,8 +36,6 @@ Local Open Scope Z_scope.
 
 Definition cmbox := mbox Cyc32.
 Definition cmcirc := mcircuit Cyc32.
-(* `data.conjugate() == data` *)
-Definition c32_req (x y : Cyc32) : bool := c32_eqb x y.
 
 Inductive prog :=
 | PCirc (dom : cty) (ls : list (nat * cmbox))
@@ -49,7 +47,7 @@ Inductive prog :=
 Fixpoint run (p : prog) : res cmcirc :=
   match p with
   | PCirc dom ls => mk_mcircuit dom ls
-  | PDagger p => do c <- run p; mdagger c32_req c
+  | PDagger p => do c <- run p; Ok (mdagger c)
   | PThen p q => do a <- run p; do b <- run q; mthen a b
   | PTensor p q => do a <- run p; do b <- run q; Ok (mtensor a b)
   | PInit p => do c <- run p; Ok (init_and_discard c)
